@@ -18,6 +18,7 @@ ASSUMPTIONS = [
     "add(o, ...) is only issued for a side of o that is currently unset, with start <= end",
     "empty points created by an explicit get_or_add_point are allowed (not required) to persist",
     "order of objects inside one time point is not compared",
+    "a set_quarter_duration(t, q) that changes nothing (no change point at t, q already in force) does not create a change point (docstring: redundant settings are not recorded)",
     "read-only queries are interleaved by replaying every history a second time with a fixed light query sweep after every operation",
 ]
 CHUNK = 8
@@ -102,10 +103,12 @@ class Ref(object):
             # explicitly created and never used stays allowed
         elif k == "setq":
             _, t, q = op
-            ks = sorted(self.q)
-            nxt = [x for x in ks if x > t]
-            # value in force from t up to the next later change, and nothing else
-            self.q[t] = q
+            # value in force from t up to the next later change, and nothing else.  A setting that does not
+            # change anything (no change point at t yet and q already in force there) is not a change point:
+            # the statement speaks of "the next later change" and the docstring of set_quarter_duration says
+            # redundant settings are not recorded, so a later setting at an earlier time extends through t.
+            if t in self.q or q != self.qf(t):
+                self.q[t] = q
         elif k == "goap":
             _, t = op
             if t not in self.point_times():
@@ -189,8 +192,37 @@ def build(pool, hist, querying=False):
     return part, objs, ref
 
 
+_KNOWN_PART_ATTRS = ("_points", "_quarter_times", "_quarter_durations")
+
+
+def _enc_hidden(v, pts_ids, depth=0):
+    """encode an instance attribute that the model does not know about, so that two implementation
+    states that differ in it are never merged by the search (a wrong merge hides bugs silently)"""
+    import numpy as np
+
+    if v is None or isinstance(v, (bool, int, str, float)):
+        return v
+    if isinstance(v, (np.integer, np.floating)):
+        return v.item()
+    if hasattr(v, "t") and hasattr(v, "starting_objects"):
+        return ("tp", int(v.t), id(v) in pts_ids)
+    if isinstance(v, (list, tuple)) and depth < 3:
+        return tuple(_enc_hidden(x, pts_ids, depth + 1) for x in v)
+    if isinstance(v, dict) and depth < 3:
+        return tuple(sorted((repr(k), _enc_hidden(x, pts_ids, depth + 1)) for k, x in v.items()))
+    if isinstance(v, np.ndarray) and depth < 3:
+        return tuple(_enc_hidden(x, pts_ids, depth + 1) for x in v.tolist())
+    return type(v).__name__
+
+
 def impl_key(part, objs):
-    pl = []
+    pts_ids = {id(tp) for tp in part._points}
+    hidden = tuple(sorted((k, _enc_hidden(v, pts_ids)) for k, v in vars(part).items() if k not in _KNOWN_PART_ATTRS))
+    hidden_tp = tuple(
+        tuple(sorted((k, _enc_hidden(v, pts_ids)) for k, v in vars(tp).items()
+                     if k not in ("t", "quarter", "prev", "next", "starting_objects", "ending_objects")))
+        for tp in part._points)
+    pl = [("hidden", hidden, hidden_tp)]
     for i, o in enumerate(objs):
         pl.append((i, None if o.start is None else int(o.start.t), None if o.end is None else int(o.end.t)))
     qt = tuple((int(a), int(b)) for a, b in zip(part._quarter_times, part._quarter_durations))
@@ -522,7 +554,7 @@ def spaces(tier, seed):
     return []  # the BFS levels are produced dynamically by explore()
 
 
-POOLS_QUICK = ["NNG", "NRM", "GTL", "NML", "RTG", "NNS"]
+POOLS_QUICK = ["NNG", "NRL", "GTL", "NML", "RTL", "SML"]
 
 
 def explore(run, tier, seed):
@@ -535,11 +567,18 @@ def explore(run, tier, seed):
         # pool (all seven classes occur) to depth 3-4 on times 0..3, four objects to depth 3, and depth 5 on times 0..2
         plans = [("NNG", 5, [1, 2, 3], 4), ("NRM", 4, [1, 2], 4), ("GTL", 4, [1, 2], 4), ("NML", 4, [1, 2], 3),
                  ("RTG", 4, [1, 2], 3), ("NNS", 4, [1, 2], 3), ("NNGR", 4, [1, 2], 3), ("NNG", 3, [1, 2], 5)]
+    # every history of length <= 3 literally (no state merging at all): state that the canonical key cannot see
+    # (caches in other objects or modules) still has to survive this
+    nd_pool = "NL" if tier == "quick" else "NGL"
+    init = [dict(pool=nd_pool, hist=[], T=3, Q=[1, 2])]
+    explorer.bfs(run, "no-merge pool=%s,T=0..2,Q=[1, 2]" % nd_pool, init, 2 if tier == "quick" else 3,
+                 bounds="objects=%s times=0..2 quarters=[1, 2]: every history of length <= %d executed literally, no de-duplication"
+                 % (nd_pool, 3 if tier == "quick" else 4), dedup=False)
     for pool, nT, Q, depth in plans:
         init = [dict(pool=pool, hist=[], T=nT, Q=Q)]
         explorer.bfs(run, "pool=%s,T=0..%d,Q=%s" % (pool, nT - 1, Q), init, depth,
                      bounds="objects=%s times=0..%d quarters=%s depth<=%d, all histories, full-state dedup" % (pool, nT - 1, Q, depth),
-                     key_of_init=lambda c: (tuple((i, None, None) for i in range(len(c["pool"]))), ((0, 1),), ()))
+                     key_of_init=None)
 
 
 if __name__ == "__main__":
